@@ -40,6 +40,15 @@ class HarnessGen:
         self.instances = []        # names of every generated op instance (filled by render)
         self.meta = {}             # name -> text mentioning every library type the op touches (calibration uses it)
 
+    @staticmethod
+    def tflag(code):
+        """flag bit 4: the op takes text (std::string_view / std::string operands) -- these also run with huge operands"""
+        if isinstance(code, (list, tuple)):
+            code = " ".join(code)
+        if re.search(r"exact_view|make<std::string_view>", code):
+            return 4
+        return 12 if re.search(r"arbitrary_bytes|make<std::string>", code) else 0   # bit 8: only through std::string operands
+
     def admit(self, name):
         if name in self.exclude:
             self.excluded_hit.append(name)
@@ -310,7 +319,10 @@ template <class T> struct Maker<PhQ::ConstitutiveModel::CompressibleNewtonianFlu
                 code.append("vrt::consume(c, self);")
             code += post
         else:
-            code = selfdecl + pre + ["auto r = [&]() -> decltype(auto) { vrt::Count k; return (%s); }();" % expr, "vrt::consume(c, r);"] + post
+            if flags & 1:   # takes the caller's stream: may well return it (by reference)
+                code = selfdecl + pre + ["auto&& r = [&]() -> decltype(auto) { vrt::Count k; return (%s); }();" % expr, "vrt::consume_or_stream(c, r);"] + post
+            else:
+                code = selfdecl + pre + ["auto r = [&]() -> decltype(auto) { vrt::Count k; return (%s); }();" % expr, "vrt::consume(c, r);"] + post
         return code, flags
 
     def sig(self, mem):
@@ -359,7 +371,7 @@ template <class T> struct Maker<PhQ::ConstitutiveModel::CompressibleNewtonianFlu
                     code, flags = r
                     k = len(cases)
                     cases.append("    case %d: { %s break; }" % (k, " ".join(code)))
-                    entries.append('  {"%s", &ops_%s_%s, %d, %d},' % (name, short, TSHORT[T], k, flags))
+                    entries.append('  {"%s", &ops_%s_%s, %d, %d},' % (name, short, TSHORT[T], k, flags | self.tflag(code)))
                     self.instances.append(name)
                     self.meta[name] = "%s %s %s" % (cname, mem.get("ret", ""), " ".join(p["type"] or "" for p in mem["params"]))
             # std::hash
@@ -397,7 +409,7 @@ template <class T> struct Maker<PhQ::ConstitutiveModel::CompressibleNewtonianFlu
                     code = "const auto a0 = vrt::make<%s>(c); const auto a1 = vrt::make<%s>(c); auto r = [&]() -> decltype(auto) { vrt::Count k; return (a0 %s a1); }(); vrt::consume(c, r);" % (cts[0], cts[1], op)
                     flags = 0
                 cases.append("    case %d: { %s break; }" % (k, code))
-                entries.append('  {"%s", &ops_%s_%s, %d, %d},' % (name, short, TSHORT[T], k, flags))
+                entries.append('  {"%s", &ops_%s_%s, %d, %d},' % (name, short, TSHORT[T], k, flags | self.tflag(code)))
                 self.instances.append(name)
             if not cases:
                 continue
@@ -420,7 +432,7 @@ template <class T> struct Maker<PhQ::ConstitutiveModel::CompressibleNewtonianFlu
                     if not self.admit(name):
                         return
                     cases.append("    case %d: { %s break; }" % (k, code))
-                    entries.append('  {"%s", &ops_unit_%s_%s, %d, %d},' % (name, U, TSHORT[T], k, flags))
+                    entries.append('  {"%s", &ops_unit_%s_%s, %d, %d},' % (name, U, TSHORT[T], k, flags | self.tflag(code)))
                     self.instances.append(name)
                 conts = [("scalar", T), ("array1", "std::array<%s, 1>" % T), ("array3", "std::array<%s, 3>" % T), ("array9", "std::array<%s, 9>" % T),
                          ("vector", "std::vector<%s>" % T), ("PlanarVector", "PhQ::PlanarVector<%s>" % T), ("Vector", "PhQ::Vector<%s>" % T),
@@ -460,7 +472,7 @@ template <class T> struct Maker<PhQ::ConstitutiveModel::CompressibleNewtonianFlu
                 if not self.admit(name):
                     return
                 cases.append("    case %d: { %s break; }" % (k, code))
-                entries.append('  {"%s", &ops_enum_%s, %d, %d},' % (name, ident, k, flags))
+                entries.append('  {"%s", &ops_enum_%s, %d, %d},' % (name, ident, k, flags | self.tflag(code)))
                 self.instances.append(name)
             add("Abbreviation", "const auto e = vrt::make<%s>(c); auto r = [&] { vrt::Count k; return PhQ::Abbreviation(e); }(); vrt::consume(c, r);" % E)
             if label != "ConstitutiveModel::Type":
@@ -495,7 +507,7 @@ template <class T> struct Maker<PhQ::ConstitutiveModel::CompressibleNewtonianFlu
             if not self.admit(name):
                 return
             cases.append("    case %d: { %s break; }" % (k, code))
-            entries.append('  {"%s", &ops_base, %d, %d},' % (name, k, flags))
+            entries.append('  {"%s", &ops_base, %d, %d},' % (name, k, flags | self.tflag(code)))
             self.instances.append(name)
         for T in NUMERIC:
             t = TSHORT[T]
@@ -571,13 +583,67 @@ template <class T> struct Maker<PhQ::ConstitutiveModel::CompressibleNewtonianFlu
                 pre = " ".join("const auto a%d = vrt::make<%s>(c);" % (i, t) for i, t in enumerate(types))
                 cases.append("    case %d: { %s auto r = [&] { vrt::Count k; return %s; }(); vrt::consume(c, r); break; }" % (
                     k, pre, call % tuple("a%d" % i for i in range(len(types)))))
-                entries.append('  {"%s", &ops_freefn_%s, %d, 0},' % (name, TSHORT[T], k))
+                entries.append('  {"%s", &ops_freefn_%s, %d, %d},' % (name, TSHORT[T], k, self.tflag(pre)))
                 self.instances.append(name)
             if cases:
                 out.append("static void ops_freefn_%s(vrt::Ctx& c, int which) {\n  switch (which) {\n%s\n    default: break;\n  }\n}" % (TSHORT[T], "\n".join(cases)))
                 out.append("static const vrt::OpEntry table_freefn_%s[] = {\n%s\n};" % (TSHORT[T], "\n".join(entries)))
                 out.append("static const vrt::Registrar reg_freefn_%s{table_freefn_%s, %d};" % (TSHORT[T], TSHORT[T], len(entries)))
         return "\n".join(out) + "\n" if out else ""
+
+    def render_enum_functions(self, suffix=""):
+        """free function templates over one enumeration type (stream manipulators, per-unit-type helpers): called with the
+        template argument written out, for every unit type (template parameter Unit/UnitType) or every enumeration.  A result
+        that is not a value the harness can canonicalise but can be inserted into a stream (a manipulator) is inserted into
+        the op's stream -- flag bit 16 -- so that histories apply it to streams that later ops print to."""
+        if not self.api.enum_functions:
+            return ""
+        units = [("Unit::%s" % U, "PhQ::Unit::%s" % U) for U in sorted(self.cat.units)]
+        every = units + [("UnitSystem", "PhQ::UnitSystem")]
+        cases, entries = [], []
+        ident = re.sub(r"\W", "_", suffix)
+        for f in self.api.enum_functions:
+            for label, E in (every if f["tparam"] == "Enumeration" else units):
+                args, pre, flags, ok = [], [], 0, True
+                for i, p in enumerate(f["params"]):
+                    t = (p["type"] or "").replace("PhQ::", "").replace(" ", "")
+                    if t == f["tparam"]:
+                        pre.append("const auto a%d = vrt::make<%s>(c);" % (i, E)); args.append("a%d" % i)
+                    elif t in ("std::ios_base", "std::ostream", "std::ios") and p["mutable_ref"]:
+                        args.append("(*c.os)"); flags |= 1
+                    elif t == "UnitSystem":
+                        pre.append("const auto a%d = vrt::make<PhQ::UnitSystem>(c);" % i); args.append("a%d" % i)
+                    elif t in ("std::string_view", "std::string") and not p["mutable_ref"]:
+                        pre.append("const auto a%d = vrt::make<%s>(c);" % (i, t)); args.append("a%d" % i)
+                    elif t in ("bool", "int", "std::size_t", "double") and not p["mutable_ref"]:
+                        pre.append("const auto a%d = vrt::make<%s>(c);" % (i, t)); args.append("a%d" % i)
+                    else:
+                        ok = False
+                        break
+                if not ok:
+                    self.skipped.append(("PhQ", f["name"], "enumeration function template: unsupported parameter"))
+                    break
+                name = "EnumFn|%s<%s>%s" % (f["name"], label, suffix)
+                if not self.admit(name):
+                    continue
+                call = "PhQ::%s<%s>(%s)" % (f["name"], E, ", ".join(args))
+                ret = f["ret"].replace(" ", "")
+                if ret == "void":
+                    code = "%s { vrt::Count k; %s; } vrt::consume(c, static_cast<int>(c.os->rdstate()));" % (" ".join(pre), call)
+                    flags |= 1
+                else:
+                    code = "%s auto&& r = [&]() -> decltype(auto) { vrt::Count k; return %s; }(); vrt::consume_or_stream(c, r);" % (" ".join(pre), call)
+                    if not re.match(r"^(%s|bool|int|std::size_t|std::string|std::string_view|UnitSystem|Dimensions|std::optional<.*>)$" % re.escape(f["tparam"]), ret):
+                        flags |= 1 | 16   # most likely a manipulator: vrt::consume_or_stream inserts it into the stream
+                k = len(cases)
+                cases.append("    case %d: { %s break; }" % (k, code))
+                entries.append('  {"%s", &ops_enumfn%s, %d, %d},' % (name, ident, k, flags | self.tflag(code)))
+                self.instances.append(name)
+        if not cases:
+            return ""
+        return ("static void ops_enumfn%s(vrt::Ctx& c, int which) {\n  switch (which) {\n%s\n    default: break;\n  }\n}\n" % (ident, "\n".join(cases))
+                + "static const vrt::OpEntry table_enumfn%s[] = {\n%s\n};\n" % (ident, "\n".join(entries))
+                + "static const vrt::Registrar reg_enumfn%s{table_enumfn%s, %d};\n" % (ident, ident, len(entries)))
 
     def render_free_function_literals(self, rng, Ts):
         """C19: a literal-operand namespace-scope object for every constexpr free function template"""
@@ -587,7 +653,7 @@ template <class T> struct Maker<PhQ::ConstitutiveModel::CompressibleNewtonianFlu
                 if not is_constexpr:
                     continue
                 iname = name.replace("Free|", "Free|literal:")
-                if self.only is not None and iname not in self.only:
+                if iname in self.exclude or name in self.exclude or (self.only is not None and iname not in self.only):
                     continue
                 r = Rng((rng.u64() ^ hash_name(iname)) & ((1 << 64) - 1))
                 args = [self.lit_template(t, T, r) for t in types]
@@ -726,7 +792,7 @@ template <class T> struct Maker<PhQ::ConstitutiveModel::CompressibleNewtonianFlu
                     continue
                 iname = "%s<%s>|literal:%s%s" % (cname, TSHORT[T], self.sig(mem), vsuffix)
                 base = "%s<%s>|%s%s" % (cname, TSHORT[T], self.sig(mem), vsuffix)
-                if iname in seen or base in self.exclude or (self.only is not None and iname not in self.only):
+                if iname in seen or base in self.exclude or iname in self.exclude or (self.only is not None and iname not in self.only):
                     continue
                 r = Rng((rng.u64() ^ hash_name(iname)) & ((1 << 64) - 1))
                 args = []
@@ -840,6 +906,10 @@ template <class T> struct Maker<PhQ::ConstitutiveModel::CompressibleNewtonianFlu
             text = self.render_free_function_literals(const_literals, NUMERIC)
             if text:
                 frags.append((text.count("clit_obj_"), text))
+        if not inline_twins:
+            text = self.render_enum_functions()
+            if text:
+                frags.append((text.count("    case "), text))
         text = self.render_model_dispatch(NUMERIC)
         if "vrt::OpEntry" in text:
             for b in re.split(r"(?=static void ops_virt_)", text):
@@ -859,6 +929,10 @@ template <class T> struct Maker<PhQ::ConstitutiveModel::CompressibleNewtonianFlu
         for i, (w, ts) in enumerate(bins):
             if ts:
                 body = "".join(ts)
+                if inline_twins:
+                    # C19 API sweep: every TU gets its own copy of the (small) enumeration-function table, FIRST, so that whichever
+                    # TU the link order initialises first can run histories that combine them with its other ops
+                    body = self.render_enum_functions("#tu%d" % i) + body
                 if not tus:
                     tail_ = tail + size_def
                     if at_exit_object:
